@@ -5,9 +5,29 @@
 From Coq Require Import List Bool Arith.
 Import ListNotations.
 From S4.Model Require Import TempFiles.
+From S4.Gen Require Import TempProto.
 From S4.Proofs Require Import TempFilesProofs.
 
-(* Normal run of the CURRENT protocol (after the fix commit): for every number of sources and
+(* THE PROPERTY, for the protocol the CURRENT TREE implements (Gen/TempProto.v is regenerated from
+   src/readers/filedecompressor.rs and src/bin/s4.rs on every run: [current_proto] is Pfixed since the
+   fix commit that creates and lists the file under the registry lock and refuses creation once the
+   registry was swept): for every number of sources, every interleaving and every signal moment,
+   no temporary file exists when the process has ended.  The proof term is the theorem about
+   Pfixed: it type-checks only while the translator still reads that protocol out of the source. *)
+Theorem C18_current_tree_exit_clean : forall n evs,
+  exited (run current_proto (init n) evs) = true -> files (run current_proto (init n) evs) = 0.
+Proof. exact exit_clean_fixed. Qed.
+Print Assumptions C18_current_tree_exit_clean.
+
+(* non-vacuity: a schedule with a SIGINT between two workers' creations reaches the exit *)
+Theorem C18_current_tree_interrupted_run_exists :
+  let evs := [EW 0; EH; EH; EW 1; EH; EM; EM] in
+  exited (run current_proto (init 2) evs) = true /\ files (run current_proto (init 2) evs) = 0
+  /\ pc (nth 1 (ws (run current_proto (init 2) evs)) w0) = WRefused.
+Proof. vm_compute. repeat split; reflexivity. Qed.
+Print Assumptions C18_current_tree_interrupted_run_exists.
+
+(* Normal run of the protocol Pcur (the tree between the two fix commits: main sweeps the list): for every number of sources and
    every interleaving without a signal, no temporary file exists when the process ends. *)
 Theorem C18_normal_exit_clean : forall n evs,
   no_signal evs = true ->
@@ -32,7 +52,8 @@ Print Assumptions C18_normal_exit_leak_old_refuted.
 
 (* FULL statement of the property for interrupts:
      forall n evs, exited (run P (init n) evs) = true -> files (run P (init n) evs) = 0.
-   It is FALSE of the current protocol (finding F5, two witness schedules) ... *)
+   It was FALSE of the protocol Pcur (finding F5, repaired by a fix: commit; two witness schedules kept
+   as regression lemmas) ... *)
 Theorem C18_sigint_leak_cur_refuted_create_register :
   exists evs, exited (run Pcur (init 1) evs) = true /\ files (run Pcur (init 1) evs) = 1.
 Proof. exact sigint_leak_cur_refuted_create_register. Qed.
